@@ -225,7 +225,11 @@ def run_case(case):
             else:
                 raise InvalidCase(kind)
             try:
-                world.add_cell_component(name, source)
+                if k % 5 == 4:
+                    world.addCellComponent(name, source)        # the deprecated spelling is still an entry point
+                    labels.add("deprecated-aliases")
+                else:
+                    world.add_cell_component(name, source)
             except Exception as e:
                 if overwrite:           # a world may refuse to add a second component under a live name: then nothing changes
                     labels.add("re-add-refused")
